@@ -327,8 +327,8 @@ def count_obligations(f):
     n_assert = len(re.findall(r"\bassert\s*(\(|forall)", t))
     n_panic = len(re.findall(r"\b(vassert|vunreachable|debug_assert_triangle_nodes!|assert_triangle_nodes|debug_assert(_eq|_ne)?!|assert(_eq|_ne)?!|unreachable!)\s*\(", t))
     n_panic += len(re.findall(r"\.(expect|unwrap)\(", t))
-    n_index = len(re.findall(r"\w\[[^\]]+\]", t))
-    return {"clauses": n_ens, "asserts": n_assert, "panic_sites": n_panic, "index_sites": n_index}
+    n_calls = len(re.findall(r"\blemma_\w+\s*(::<[^>]*>)?\(", t))
+    return {"clauses": n_ens, "ghost_asserts": n_assert, "panic_sites": n_panic, "lemma_preconditions": n_calls}
 
 
 VACUITY_MARK = "assert(false); // @vacuity-probe"
